@@ -138,15 +138,119 @@ Lemma two_profilers_witness :
   /\ fst (wrap_function 1 (wrap_function 1 (pure const7)) 0 mon0) = FRet 7.
 Proof. repeat split; vm_compute; reflexivity. Qed.
 
+(* ---- kernprof -i: the interval timer --------------------------------------------------- *)
+(* `kernprof -i N` starts RepeatedTimer(N, prof.dump_stats, outfile): every N seconds another thread
+   calls prof.dump_stats(outfile) while the program - and the callables it decorated with kernprof's
+   profiler - keeps running.  What that call does to the state a decorated call can observe:
+     LineProfiler.dump_stats      : get_stats() + pickle                      - nothing
+     ContextualProfile (cProfile) : Profile.dump_stats -> create_stats() -> self.disable():
+                                    the tool id is released if this profiler holds it;
+                                    enable_count is NOT touched
+   Hand model of that glue, tied by correspondence (stream "kern" of harness/props/c03.py: the real
+   kernprof.main runs in-process, the function it hands to RepeatedTimer is called from a thread). *)
+Definition dump_line_profiler (p : Z) (m : mon) : mon := m.
+Definition dump_cprofile (p : Z) (m : mon) : mon :=
+  match owner m with
+  | Some q => if q =? p then {| owner := None; count := count m |} else m
+  | None => m
+  end.
+
+(* a program under kernprof: calls of decorated functions (argument a) interleaved with timer ticks *)
+Inductive pstep := SCall (a : Z) | STick.
+
+Fixpoint run_steps (tick : mon -> mon) (f : fn) (steps : list pstep) (m : mon) : list fres * mon :=
+  match steps with
+  | [] => ([], m)
+  | SCall a :: rest => let '(r, m1) := f a m in let '(rs, m2) := run_steps tick f rest m1 in (r :: rs, m2)
+  | STick :: rest => run_steps tick f rest (tick m)
+  end.
+
+Fixpoint call_args (steps : list pstep) : list Z :=
+  match steps with [] => [] | SCall a :: r => a :: call_args r | STick :: r => call_args r end.
+
+(* the bookkeeping invariant the wrappers rely on: whenever this profiler's count is 0 nobody holds
+   the tool id (so enable() will succeed) *)
+Definition timer_inv (p : Z) (m : mon) : Prop := 0 <= count m p /\ (count m p = 0 -> owner m = None).
+
+Lemma timer_inv_can_enable : forall p m, timer_inv p m -> can_enable p m.
+Proof.
+  intros p m [Hc Ho]. destruct (Z.eq_dec (count m p) 0) as [E | E]; [right; auto | left; exact E].
+Qed.
+
+Lemma wrap_pure_keeps_inv : forall p g a m,
+  timer_inv p m -> timer_inv p (snd (wrap_function p (pure g) a m)).
+Proof.
+  intros p g a m [Hc Ho]. unfold wrap_function, enable_by_count, pure.
+  destruct (count m p =? 0) eqn:E.
+  - apply Z.eqb_eq in E. rewrite (Ho E). cbn. unfold disable_by_count. cbn. unfold upd. rewrite Z.eqb_refl. cbn.
+    unfold timer_inv. cbn. rewrite Z.eqb_refl. split; [lia | reflexivity].
+  - apply Z.eqb_neq in E. cbn. unfold disable_by_count. cbn. unfold upd. rewrite Z.eqb_refl.
+    destruct (0 <? count m p + 1) eqn:E2; [|lia].
+    replace (count m p + 1 - 1) with (count m p) by lia.
+    apply Z.eqb_neq in E. rewrite E. unfold timer_inv. cbn. rewrite Z.eqb_refl.
+    split; [lia | intros H; apply Z.eqb_neq in E; contradiction].
+Qed.
+
+Lemma dump_cprofile_keeps_inv : forall p m, timer_inv p m -> timer_inv p (dump_cprofile p m).
+Proof.
+  intros p m [Hc Ho]. unfold dump_cprofile, timer_inv.
+  destruct (owner m) as [q|] eqn:Eo; [|rewrite Eo; auto].
+  destruct (q =? p); cbn; [auto | rewrite Eo; auto].
+Qed.
+
+(* ticks that respect the invariant never change what a decorated call returns *)
+Theorem timer_harmless : forall (tick : mon -> mon) p g,
+  (forall m, timer_inv p m -> timer_inv p (tick m)) ->
+  forall steps m, timer_inv p m ->
+    fst (run_steps tick (wrap_function p (pure g)) steps m) = map g (call_args steps).
+Proof.
+  intros tick p g Ht. induction steps as [|st rest IH]; intros m Hi; cbn [run_steps call_args map].
+  - reflexivity.
+  - destruct st as [a|].
+    + pose proof (wrap_function_pure p g a m (timer_inv_can_enable p m Hi)) as Hr.
+      pose proof (wrap_pure_keeps_inv p g a m Hi) as Hi'.
+      destruct (wrap_function p (pure g) a m) as [r m1]. cbn in Hr, Hi'.
+      specialize (IH m1 Hi'). destruct (run_steps tick (wrap_function p (pure g)) rest m1) as [rs m2].
+      cbn in *. rewrite Hr, IH. reflexivity.
+    + apply IH. apply Ht. exact Hi.
+Qed.
+
+Corollary timer_harmless_cprofile : forall p g steps,
+  fst (run_steps (dump_cprofile p) (wrap_function p (pure g)) steps mon0) = map g (call_args steps).
+Proof.
+  intros. apply timer_harmless; [apply dump_cprofile_keeps_inv|].
+  split; cbn; [lia | reflexivity].
+Qed.
+
+Corollary timer_harmless_line_profiler : forall p g steps,
+  fst (run_steps (dump_line_profiler p) (wrap_function p (pure g)) steps mon0) = map g (call_args steps).
+Proof.
+  intros. apply timer_harmless; [auto|]. split; cbn; [lia | reflexivity].
+Qed.
+
+(* why the timer must stay out of the by-count bookkeeping: a tick that switched the profiler back on
+   (dump, then prof.enable()) leaves "enabled with count 0", and the next decorated call raises *)
+Definition dump_and_resume (p : Z) (m : mon) : mon :=
+  let m1 := dump_cprofile p m in
+  match owner m1 with None => {| owner := Some p; count := count m1 |} | Some _ => m1 end.
+
+Lemma resuming_tick_breaks_calls :
+  fst (run_steps (dump_and_resume 2) (wrap_function 2 (pure const7)) [SCall 0; STick; SCall 0] mon0)
+  = [FRet 7; FRaise ValueErr].
+Proof. vm_compute. reflexivity. Qed.
+
 (* ---- metadata ------------------------------------------------------------------------ *)
-Inductive fkind := FPlain | FGenerator | FCoroutine | FAsyncGenerator.
+(* FGenCoroutine: a generator function carrying CO_ITERABLE_COROUTINE (@types.coroutine): for inspect it
+   is a generator function (isgeneratorfunction, not iscoroutinefunction), and its result may be awaited *)
+Inductive fkind := FPlain | FGenerator | FCoroutine | FAsyncGenerator | FGenCoroutine.
 
 (* what inspect / help() show of a function: __name__, __doc__, inspect.signature (an opaque
-   id), and which of isgeneratorfunction / iscoroutinefunction / isasyncgenfunction holds *)
+   id), and which of isgeneratorfunction / iscoroutinefunction / isasyncgenfunction holds
+   (plus the iterable-coroutine flag) *)
 Record fmeta := { m_name : string; m_doc : option string; m_sig : Z; m_kind : fkind }.
 
 (* the four closures in profiler_mixin.py before functools.wraps is applied: all are called
-   "wrapper"%string, undocumented, take (star-args, star-star-kwds) (signature id -1); their kind is fixed by how
+   wrapper, undocumented, take (star-args, star-star-kwds) (signature id -1); their kind is fixed by how
    they are written (def / def+yield / async def / async def+yield) *)
 Definition template (k : fkind) : fmeta :=
   {| m_name := "wrapper"%string; m_doc := None; m_sig := -1; m_kind := k |}.
@@ -156,23 +260,42 @@ Definition template (k : fkind) : fmeta :=
 Definition wraps (orig tmpl : fmeta) : fmeta :=
   {| m_name := m_name orig; m_doc := m_doc orig; m_sig := m_sig orig; m_kind := m_kind tmpl |}.
 
-(* wrap_callable's elif chain for plain functions: is_async_generator, is_coroutine,
-   is_generator, else function - each picks the wrap_* whose closure has that same kind *)
+(* wrap_callable's elif chain for plain functions: is_async_generator (inspect.isasyncgenfunction),
+   is_coroutine (inspect.iscoroutinefunction), is_generator (inspect.isgeneratorfunction), else function -
+   each picks the wrap_* whose closure has that kind.  A @types.coroutine function is a generator
+   function for inspect: it gets wrap_generator's plain `def ... yield` closure, which does not carry
+   the iterable-coroutine flag. *)
 Definition dispatch (m : fmeta) : fkind :=
   match m_kind m with
   | FAsyncGenerator => FAsyncGenerator
   | FCoroutine => FCoroutine
   | FGenerator => FGenerator
+  | FGenCoroutine => FGenerator
   | FPlain => FPlain
   end.
 
 Definition wrap_meta (m : fmeta) : fmeta := wraps m (template (dispatch m)).
 
-Theorem wrap_meta_id : forall m, wrap_meta m = m.
-Proof. intros [n d s k]. destruct k; reflexivity. Qed.
+Theorem wrap_meta_id : forall m, m_kind m <> FGenCoroutine -> wrap_meta m = m.
+Proof. intros [n d s k] H. destruct k; try reflexivity. cbn in H. congruence. Qed.
+
+(* name, doc and signature are kept for every kind *)
+Theorem wrap_meta_names : forall m,
+  m_name (wrap_meta m) = m_name m /\ m_doc (wrap_meta m) = m_doc m /\ m_sig (wrap_meta m) = m_sig m.
+Proof. intros m. repeat split. Qed.
+
+(* the kind of a @types.coroutine function is NOT preserved: the result of the decorated function can no
+   longer be awaited *)
+Theorem wrap_meta_gencoroutine : forall m,
+  m_kind m = FGenCoroutine -> m_kind (wrap_meta m) = FGenerator /\ wrap_meta m <> m.
+Proof.
+  intros [n d s k] H. cbn in H. subst k. split; [reflexivity|]. unfold wrap_meta, wraps; cbn. congruence.
+Qed.
 
 Lemma wrap_meta_nonvacuous :
   wrap_meta {| m_name := "fib"%string; m_doc := Some "doc"%string; m_sig := 3; m_kind := FAsyncGenerator |}
   = {| m_name := "fib"%string; m_doc := Some "doc"%string; m_sig := 3; m_kind := FAsyncGenerator |}
-  /\ template FAsyncGenerator <> {| m_name := "fib"%string; m_doc := Some "doc"%string; m_sig := 3; m_kind := FAsyncGenerator |}.
-Proof. split; [reflexivity | discriminate]. Qed.
+  /\ template FAsyncGenerator <> {| m_name := "fib"%string; m_doc := Some "doc"%string; m_sig := 3; m_kind := FAsyncGenerator |}
+  /\ wrap_meta {| m_name := "sleep0"%string; m_doc := None; m_sig := 1; m_kind := FGenCoroutine |}
+     = {| m_name := "sleep0"%string; m_doc := None; m_sig := 1; m_kind := FGenerator |}.
+Proof. split; [reflexivity | split; [discriminate | reflexivity]]. Qed.
